@@ -15,8 +15,8 @@ ASSUMPTIONS = [
     "and the comparison allows both",
     "str.lower(): ASCII exact, U+0130 -> 'i'+U+0307, U+212A -> 'k'; every other non-ASCII code point lower-cases to non-ASCII, "
     "non-whitespace text (probed over all code points on every run), which cannot make a token acceptable",
-    "the reading of the property used by the direct law check takes 'any letter case' as ASCII case; inputs containing U+212A KELVIN "
-    "SIGN are outside the domain of the law check (the code accepts 'K'+'azlib' as Kazlib: reported as a candidate finding)",
+    "the reading of the property used by the direct law check takes 'any letter case' as ASCII case (a token spelled with U+212A KELVIN "
+    "SIGN or any other non-ASCII character is no identifier; the code rejects it since fix 9992710)",
     "whether 'LicenseRef-x+' is well-formed is not fixed by the property text: both readings are allowed",
 ]
 TRUSTED_EXTRA = [
@@ -177,8 +177,20 @@ def streams(rng, tier):
         out.append(Case("table", "l.canon", [i])); out.append(Case("table", "l.canon", [rcase(rng, i) + rng.choice(["", "+"])]))
     for e in exc:
         out.append(Case("table", "l.canon", [rng.choice(SHORT) + " with " + rcase(rng, e)])); out.append(Case("table", "l.canon", [e]))
+    # identifiers are ASCII: every table entry with a k, spelled with U+212A KELVIN SIGN (str.lower() maps it to "k"), in its position
+    for i in lic:
+        if "k" in i.lower():
+            j = rng.choice([n for n, c in enumerate(i) if c in "kK"])
+            out.append(Case("kelvin", "l.canon", [i[:j] + gen_lic.KELVIN + i[j + 1:] + rng.choice(["", "+", " or MIT"])]))
+    for e in exc:
+        if "k" in e.lower():
+            j = rng.choice([n for n, c in enumerate(e) if c in "kK"])
+            out.append(Case("kelvin", "l.canon", [rng.choice(SHORT) + " WITH " + e[:j] + gen_lic.KELVIN + e[j + 1:]]))
+            out.append(Case("law-kelvin", "law.l.spec", ["(" + rng.choice(SHORT) + " with " + rcase(rng, e[:j]) + gen_lic.KELVIN + e[j + 1:] + ")"], kind="law"))
     for _ in range(4000 if q else 100000):
         s = expr(rng, 0, rng.choice([1, 2, 3, 3, 4]))
+        if rng.random() < 0.04 and ("k" in s or "K" in s):          # one k written as KELVIN SIGN
+            j = rng.choice([n for n, c in enumerate(s) if c in "kK"]); s = s[:j] + gen_lic.KELVIN + s[j + 1:]
         k = rng.random()
         if k < 0.15: s = damage(rng, s)
         elif k < 0.22: s = mutate(rng, s)
@@ -245,23 +257,11 @@ def _spec(s):
     return gen_lic.spec(s, True, *_folded)
 
 
-def match_kelvin(case, impl, model):
-    """Proposed known finding: a word that is an identifier only through str.lower() mapping U+212A KELVIN SIGN to 'k' is accepted.
-    Instance = the input contains U+212A, is not an expression, becomes one when 'k' is written instead, and the implementation
-    (like the faithful model) returns the canonical text of that other expression."""
-    if case.cmd != "l.canon" or gen_lic.KELVIN not in case.args[0]: return False
-    if not (isinstance(impl, str) and impl.startswith("OK|") and impl == model): return False
-    s = case.args[0]
-    if _spec(s) is not None: return False
-    r = _spec(s.replace(gen_lic.KELVIN, "k"))
-    return r is not None and impl == "OK|" + r[0]
-
-
 def match_deep(case, impl, model):
     """Proposed known finding: a well-formed expression nested deeper than CPython's eval() takes is rejected.
     Instance = well-formed per the property, nesting depth > 100, implementation rejects, and the faithful model says
     'rejected' (depth > 200) or 'interpreter dependent' (101..200)."""
-    if case.cmd != "l.canon" or impl != "E" or gen_lic.KELVIN in case.args[0]: return False
+    if case.cmd != "l.canon" or impl != "E": return False
     r = _spec(case.args[0])
     if r is None or r[1] <= 100: return False
     return model == "E" if r[1] > 200 else (isinstance(model, str) and model == "L|" + r[0])
